@@ -501,6 +501,10 @@ def run(facts, rep, tier):
              "(an action on a dangling reference fails; it does not inline an empty note and delete a file that is not there).")
     from . import forwards
     forwards.rule_context_forwards(facts, rep, "C09-R10")
+    rep.rule("C09-R11", "An offered action can be carried out: every scope selector (get_surrounding_* ..) whose None makes ActionProvider::changes give up also gates ActionProvider::action - "
+             "for the extract / inline providers.")
+    from . import offers
+    offers.rule_offer_implies_changes(facts, rep, "C09-R11", only=("SectionExtract", "SubSectionsExtract", "ReferenceInlineSection", "ReferenceInlineQuote", "ReferenceInlineList"))
 
 class _Sub:
     """Forwards to a Report but keeps only instances located in the refactoring actions."""
